@@ -17,7 +17,7 @@ open Path
 is stored as `os.path.abspath(path)`, every OS call in `RawFileSystem` takes a `_resolve_path`
 result, and `RootEscapeError` is not a `FileNotFoundError`/`OSError` (a chain would swallow it). -/
 theorem C18_gen_ok :
-    Gen.Fsys.containKind = .sepTerminated ∧ Gen.Fsys.rootIsAbspath = true ∧
+    Gen.Fsys.cfg.contain = .sepTerminated ∧ Gen.Fsys.cfg.foldSlash = true ∧ Gen.Fsys.rootIsAbspath = true ∧
     Gen.Fsys.osCalls.all (fun c => c.2.2) = true ∧ Gen.Fsys.osCalls.length ≥ 5 ∧
     Gen.Fsys.escapeErrorBases = ["ValueError"] := by
   decide +kernel
@@ -73,60 +73,61 @@ theorem C18_root_abs (cwd path : Str) (c : Bool) (h : isAbs cwd = true) :
 /-- **Containment.** With the separator-terminated test, an accepted path has the root's
 components as a prefix, and what follows contains no `..`, `.` or empty component: it names
 something located inside the root. -/
-theorem C18_contain (cwd : Str) (fs : RawFS) (p q : Str)
+theorem C18_contain (k : Cfg) (hk : k.contain = .sepTerminated) (cwd : Str) (fs : RawFS) (p q : Str)
     (hc : fs.constrain = true) (ha : isAbs fs.root = true)
-    (h : resolve .sepTerminated cwd fs p = .ok q) :
+    (h : resolve k cwd fs p = .ok q) :
     ∃ rest, comps q = comps fs.root ++ rest ∧ ∀ c ∈ rest, c ≠ [] ∧ c ≠ dot ∧ c ≠ dotdot := by
   obtain ⟨hq, hin⟩ := resolve_ok h
-  obtain ⟨rest, hr⟩ := comps_prefix_of_inside fs.root q (hin hc)
+  obtain ⟨rest, hr⟩ := comps_prefix_of_inside fs.root q (hk ▸ hin hc)
   refine ⟨rest, hr.symm, ?_⟩
-  have hj : isAbs (join2 fs.root p) = true := isAbs_join2 fs.root p ha
-  have hq' : q = normpath (join2 fs.root p) := by rw [hq]; simp [abspath, hj]
-  obtain ⟨h1, h2⟩ := comps_normpath_abs (join2 fs.root p) hj
+  generalize (if k.foldSlash then replaceBS p else p) = p' at hq
+  have hj : isAbs (join2 fs.root p') = true := isAbs_join2 fs.root p' ha
+  have hq' : q = normpath (join2 fs.root p') := by rw [hq]; simp [abspath, hj]
+  obtain ⟨h1, h2⟩ := comps_normpath_abs (join2 fs.root p') hj
   intro c hcm
   have : c ∈ comps q := by rw [← hr]; exact List.mem_append_right _ hcm
   rw [hq', h1] at this
   have := h2 c this
   exact ⟨this.1, this.2.1, this.2.2.1⟩
 
-example : resolve .sepTerminated ['/'] ⟨['/','a','/','r'], true⟩ ['s','/','.','.','/','x']
+example : resolve ⟨.sepTerminated, true⟩ ['/'] ⟨['/','a','/','r'], true⟩ ['s','/','.','.','/','x']
     = .ok ['/','a','/','r','/','x'] := by decide +kernel
 
 /-- The string-prefix test (the code before the fix) accepts a sibling whose name extends the
 root's name: a concrete escape.  The separator-terminated test rejects the same input. -/
 theorem C18_prefix_bug :
-    resolve .stringPrefix ['/'] ⟨['/','a','/','r','o','o','t'], true⟩
+    resolve ⟨.stringPrefix, false⟩ ['/'] ⟨['/','a','/','r','o','o','t'], true⟩
         ['.','.','/','r','o','o','t','_','e','v','i','l','/','s']
       = .ok ['/','a','/','r','o','o','t','_','e','v','i','l','/','s']
     ∧ ¬ (comps ['/','a','/','r','o','o','t'] <+: comps ['/','a','/','r','o','o','t','_','e','v','i','l','/','s'])
-    ∧ resolve .sepTerminated ['/'] ⟨['/','a','/','r','o','o','t'], true⟩
+    ∧ resolve ⟨.sepTerminated, false⟩ ['/'] ⟨['/','a','/','r','o','o','t'], true⟩
         ['.','.','/','r','o','o','t','_','e','v','i','l','/','s'] = .error .escape := by
   decide +kernel
 
 /-- **Existence test.** `name in fs` answering `True` refers to a file of the tree inside the root. -/
-theorem C18_exists (cwd : Str) (fs : RawFS) (t : Tree) (p : Str)
+theorem C18_exists (k : Cfg) (hk : k.contain = .sepTerminated) (cwd : Str) (fs : RawFS) (t : Tree) (p : Str)
     (hc : fs.constrain = true) (ha : isAbs fs.root = true)
-    (h : existsIn .sepTerminated cwd fs t p = .ok true) :
+    (h : existsIn k cwd fs t p = .ok true) :
     ∃ e ∈ t, comps fs.root <+: e.comps := by
   unfold existsIn at h
-  cases hr : resolve .sepTerminated cwd fs p with
+  cases hr : resolve k cwd fs p with
   | error e => rw [hr] at h; cases h
   | ok q =>
     rw [hr] at h
     simp only [bind, Except.bind, pure, Except.pure, Except.ok.injEq] at h
     obtain ⟨e, he⟩ := Option.isSome_iff_exists.mp h
     obtain ⟨hm, hcmp⟩ := fileAt_some he
-    obtain ⟨rest, hrest, _⟩ := C18_contain cwd fs p q hc ha hr
+    obtain ⟨rest, hrest, _⟩ := C18_contain k hk cwd fs p q hc ha hr
     exact ⟨e, hm, by rw [hcmp, hrest]; exact List.prefix_append _ _⟩
 
 /-- **Open.** Whatever `open_bin`/`open_str` read is a file of the tree located inside the root
 (its components extend the root's, and nothing after the root is `..`). -/
-theorem C18_open (cwd : Str) (fs : RawFS) (t : Tree) (p : Str) (e : Ent)
+theorem C18_open (k : Cfg) (hk : k.contain = .sepTerminated) (cwd : Str) (fs : RawFS) (t : Tree) (p : Str) (e : Ent)
     (hc : fs.constrain = true) (ha : isAbs fs.root = true)
-    (h : openName .sepTerminated cwd fs t p = .ok e) :
+    (h : openName k cwd fs t p = .ok e) :
     e ∈ t ∧ ∃ rest, e.comps = comps fs.root ++ rest ∧ dotdot ∉ rest := by
   unfold openName at h
-  cases hr : resolve .sepTerminated cwd fs p with
+  cases hr : resolve k cwd fs p with
   | error x => rw [hr] at h; cases h
   | ok q =>
     rw [hr] at h
@@ -138,34 +139,66 @@ theorem C18_open (cwd : Str) (fs : RawFS) (t : Tree) (p : Str) (e : Ent)
       simp only [pure, Except.pure, Except.ok.injEq] at h
       subst h
       obtain ⟨hm, hcmp⟩ := fileAt_some hf
-      obtain ⟨rest, hrest, hclean⟩ := C18_contain cwd fs p q hc ha hr
+      obtain ⟨rest, hrest, hclean⟩ := C18_contain k hk cwd fs p q hc ha hr
       exact ⟨hm, rest, by rw [hcmp, hrest], fun hd => (hclean _ hd).2.2 rfl⟩
 
 /-- **Lookup then open.** `fs[name].open_bin()` reads a file inside the root. -/
-theorem C18_get_open (cwd : Str) (fs : RawFS) (t : Tree) (p : Str) (e : Ent)
+theorem C18_get_open (k : Cfg) (hk : k.contain = .sepTerminated) (cwd : Str) (fs : RawFS) (t : Tree) (p : Str) (e : Ent)
     (hc : fs.constrain = true) (ha : isAbs fs.root = true)
-    (h : getOpen .sepTerminated cwd fs t p = .ok e) :
+    (h : getOpen k cwd fs t p = .ok e) :
     e ∈ t ∧ ∃ rest, e.comps = comps fs.root ++ rest ∧ dotdot ∉ rest := by
   unfold getOpen at h
-  cases hg : getFile .sepTerminated cwd fs t p with
+  cases hg : getFile k cwd fs t p with
   | error x => rw [hg] at h; cases h
   | ok d =>
     rw [hg] at h
-    exact C18_open cwd fs t d e hc ha h
+    exact C18_open k hk cwd fs t d e hc ha h
+
+/-- **The `File` handed out names what was checked.** With slash folding inside `_resolve_path`,
+the `File` returned by `fs[name]` (whose path is the name with backslashes replaced) resolves to
+exactly the location whose existence was tested. -/
+theorem C18_get_consistent (k : Cfg) (hf : k.foldSlash = true) (cwd : Str) (fs : RawFS) (t : Tree)
+    (p d : Str) (h : getFile k cwd fs t p = .ok d) :
+    d = replaceBS p ∧ resolve k cwd fs d = resolve k cwd fs p := by
+  unfold getFile at h
+  cases hr : resolve k cwd fs p with
+  | error x => rw [hr] at h; cases h
+  | ok q =>
+    rw [hr] at h
+    simp only [bind, Except.bind] at h
+    split at h
+    · simp only [pure, Except.pure, Except.ok.injEq] at h
+      subst h
+      refine ⟨rfl, ?_⟩
+      rw [← hr]
+      unfold resolve
+      simp [hf, replaceBS_idem]
+    · cases h
+
+/-- Without slash folding (the code before the second fix) the lookup tests one location and
+hands out a `File` naming another one, outside the root: name `\\/../f` under root `/r/s`. -/
+theorem C18_get_mismatch_bug :
+    let k : Cfg := ⟨.sepTerminated, false⟩
+    let fs : RawFS := ⟨['/','r','/','s'], true⟩
+    let t : Tree := [⟨[['r'], ['s'], ['f']], 1⟩, ⟨[['f']], 2⟩]
+    getFile k ['/'] fs t ['\\','/','.','.','/','f'] = .ok ['/','/','.','.','/','f']
+    ∧ resolve k ['/'] fs ['/','/','.','.','/','f'] = .error .escape
+    ∧ (openName ⟨.sepTerminated, false⟩ ['/'] ⟨['/','r','/','s'], false⟩ t ['/','/','.','.','/','f']).map (·.id) = .ok 2 := by
+  decide +kernel
 
 /-- **Walk.** Every file listed by `walk_folder` is a file of the tree located inside the root. -/
-theorem C18_walk (cwd : Str) (fs : RawFS) (t : Tree) (folder : Str) (l : List (Str × Ent))
+theorem C18_walk (k : Cfg) (hk : k.contain = .sepTerminated) (cwd : Str) (fs : RawFS) (t : Tree) (folder : Str) (l : List (Str × Ent))
     (hc : fs.constrain = true) (ha : isAbs fs.root = true)
-    (h : walk .sepTerminated cwd fs t folder = .ok l) :
+    (h : walk k cwd fs t folder = .ok l) :
     ∀ x ∈ l, x.2 ∈ t ∧ comps fs.root <+: x.2.comps := by
   unfold walk at h
-  cases hr : resolve .sepTerminated cwd fs folder with
+  cases hr : resolve k cwd fs folder with
   | error x => rw [hr] at h; cases h
   | ok q =>
     rw [hr] at h
     simp only [bind, Except.bind, pure, Except.pure, Except.ok.injEq] at h
     subst h
-    obtain ⟨rest, hrest, _⟩ := C18_contain cwd fs folder q hc ha hr
+    obtain ⟨rest, hrest, _⟩ := C18_contain k hk cwd fs folder q hc ha hr
     intro x hx
     obtain ⟨e, he, rfl⟩ := List.mem_map.mp hx
     obtain ⟨hm, hp⟩ := List.mem_filter.mp he
@@ -175,12 +208,12 @@ theorem C18_walk (cwd : Str) (fs : RawFS) (t : Tree) (folder : Str) (l : List (S
 
 /-- **Chain lookup/open.** Through a chain of constrained directory filesystems (each with any
 sub-folder prefix), whatever is opened lies inside the root of one of the members. -/
-theorem C18_chain (cwd : Str) (t : Tree) (ms : List Member) (name : Str) (e : Ent)
+theorem C18_chain (k : Cfg) (hk : k.contain = .sepTerminated) (cwd : Str) (t : Tree) (ms : List Member) (name : Str) (e : Ent)
     (hms : ∀ m ∈ ms, m.fs.constrain = true ∧ isAbs m.fs.root = true)
-    (h : chainOpen .sepTerminated cwd t ms name = .ok e) :
+    (h : chainOpen k cwd t ms name = .ok e) :
     e ∈ t ∧ ∃ m ∈ ms, comps m.fs.root <+: e.comps := by
   unfold chainOpen at h
-  cases hg : chainGet .sepTerminated cwd t name ms with
+  cases hg : chainGet k cwd t name ms with
   | error x => rw [hg] at h; cases h
   | ok r =>
     obtain ⟨m, full, inner⟩ := r
@@ -197,15 +230,15 @@ theorem C18_chain (cwd : Str) (t : Tree) (ms : List Member) (name : Str) (e : En
           rw [← hg.1]; exact List.mem_cons_self
         · exact List.mem_cons_of_mem _ (ih (fun x hx => hms x (List.mem_cons_of_mem _ hx)) hg)
         · simp [throw, throwThe, MonadExceptOf.throw] at hg
-    obtain ⟨h1, rest, h2, _⟩ := C18_open cwd m.fs t inner e (hms m hm).1 (hms m hm).2 h
+    obtain ⟨h1, rest, h2, _⟩ := C18_open k hk cwd m.fs t inner e (hms m hm).1 (hms m hm).2 h
     exact ⟨h1, m, hm, by rw [h2]; exact List.prefix_append _ _⟩
 
 /-- **Chain walk.** Every file a chain walk lists and that can be opened lies inside the root of
 one of the members. -/
-theorem C18_chain_walk (cwd : Str) (t : Tree) (ms : List Member) (folder : Str)
+theorem C18_chain_walk (k : Cfg) (hk : k.contain = .sepTerminated) (cwd : Str) (t : Tree) (ms : List Member) (folder : Str)
     (l : List (Str × Except Err Ent))
     (hms : ∀ m ∈ ms, m.fs.constrain = true ∧ isAbs m.fs.root = true)
-    (h : chainWalkRepeat .sepTerminated cwd t folder ms = .ok l) :
+    (h : chainWalkRepeat k cwd t folder ms = .ok l) :
     ∀ x ∈ l, ∀ e, x.2 = .ok e → e ∈ t ∧ ∃ m ∈ ms, comps m.fs.root <+: e.comps := by
   induction ms generalizing l with
   | nil =>
@@ -213,12 +246,12 @@ theorem C18_chain_walk (cwd : Str) (t : Tree) (ms : List Member) (folder : Str)
     subst h; intro x hx; cases hx
   | cons m ms ih =>
     rw [chainWalkRepeat] at h
-    cases hw : walk .sepTerminated cwd m.fs t (replaceBS (join2 m.pfx folder)) with
+    cases hw : walk k cwd m.fs t (replaceBS (join2 m.pfx folder)) with
     | error x => rw [hw] at h; cases h
     | ok fl =>
       rw [hw] at h
       simp only [bind, Except.bind] at h
-      cases hrest : chainWalkRepeat .sepTerminated cwd t folder ms with
+      cases hrest : chainWalkRepeat k cwd t folder ms with
       | error x => rw [hrest] at h; cases h
       | ok rest =>
         rw [hrest] at h
@@ -229,7 +262,7 @@ theorem C18_chain_walk (cwd : Str) (t : Tree) (ms : List Member) (folder : Str)
         · obtain ⟨y, _, rfl⟩ := List.mem_map.mp hx
           simp only at hxe
           have hm := hms m List.mem_cons_self
-          obtain ⟨h1, r, h2, _⟩ := C18_open cwd m.fs t y.1 e hm.1 hm.2 hxe
+          obtain ⟨h1, r, h2, _⟩ := C18_open k hk cwd m.fs t y.1 e hm.1 hm.2 hxe
           exact ⟨h1, m, List.mem_cons_self, by rw [h2]; exact List.prefix_append _ _⟩
         · obtain ⟨h1, m', hm', h2⟩ :=
             ih rest (fun x hx => hms x (List.mem_cons_of_mem _ hx)) hrest x hx e hxe
@@ -239,9 +272,9 @@ theorem C18_chain_walk (cwd : Str) (t : Tree) (ms : List Member) (folder : Str)
 example :
     let fs : RawFS := ⟨['/','r'], true⟩
     let t : Tree := [⟨[['r'], ['s'], ['f']], 7⟩, ⟨[['r','_','e']], 9⟩]
-    (chainOpen .sepTerminated ['/'] t [⟨fs, ['s']⟩] ['f']).map (·.id) = .ok 7
-    ∧ (chainOpen .sepTerminated ['/'] t [⟨fs, ['s']⟩] ['.','.','/','.','.','/','r','_','e']).map (·.id) = .error .escape
-    ∧ (chainOpen .stringPrefix ['/'] t [⟨fs, ['s']⟩] ['.','.','/','.','.','/','r','_','e']).map (·.id) = .ok 9 := by
+    (chainOpen ⟨.sepTerminated, true⟩ ['/'] t [⟨fs, ['s']⟩] ['f']).map (·.id) = .ok 7
+    ∧ (chainOpen ⟨.sepTerminated, true⟩ ['/'] t [⟨fs, ['s']⟩] ['.','.','/','.','.','/','r','_','e']).map (·.id) = .error .escape
+    ∧ (chainOpen ⟨.stringPrefix, false⟩ ['/'] t [⟨fs, ['s']⟩] ['.','.','/','.','.','/','r','_','e']).map (·.id) = .ok 9 := by
   decide +kernel
 
 /-- **`unify_path`.** An accepted pack path is relative (no leading slash), does not contain the
